@@ -55,10 +55,8 @@ impl<R: AsyncRead + Unpin + Send + Sync> AsyncReadPacket for R {
     }
 
     async fn read_string(&mut self) -> Result<String, Error> {
-        let length = self.read_varint().await? as usize;
-
-        let mut buffer = vec![0; length];
-        self.read_exact(&mut buffer).await?;
+        let length = self.read_varint().await?;
+        let buffer = read_prefixed(self, length).await?;
 
         String::from_utf8(buffer).map_err(|_| Error::InvalidEncoding)
     }
@@ -96,11 +94,26 @@ impl<R: AsyncRead + Unpin + Send + Sync> AsyncReadPacket for R {
     }
 
     async fn read_bytes(&mut self) -> Result<Vec<u8>, Error> {
-        let length = self.read_varint().await? as usize;
-
-        let mut buffer = vec![0; length];
-        self.read_exact(&mut buffer).await?;
+        let length = self.read_varint().await?;
+        let buffer = read_prefixed(self, length).await?;
 
         Ok(buffer)
     }
+}
+
+/// Reads exactly `length` bytes. The length was announced by the peer, so it is validated and the
+/// buffer only grows with the bytes that are actually there (it is never allocated upfront).
+async fn read_prefixed<R: AsyncRead + Unpin>(
+    reader: &mut R,
+    length: VarInt,
+) -> Result<Vec<u8>, Error> {
+    let length = u64::try_from(length).map_err(|_| Error::IllegalPacketLength)?;
+
+    let mut buffer = Vec::new();
+    reader.take(length).read_to_end(&mut buffer).await?;
+    if (buffer.len() as u64) < length {
+        return Err(std::io::Error::from(std::io::ErrorKind::UnexpectedEof).into());
+    }
+
+    Ok(buffer)
 }
